@@ -2,11 +2,30 @@ package props
 
 import (
 	"bufio"
+	"bytes"
 	"encoding/json"
 	"fmt"
 	"os"
+	"runtime"
+	"strconv"
+	"sync/atomic"
 	"testing"
+	"time"
 )
+
+// hangStacks keeps only the running goroutines' stacks (the CPU loop).
+func hangStacks(all []byte) []byte {
+	var out bytes.Buffer
+	for _, blk := range bytes.Split(all, []byte("\n\n")) {
+		if bytes.Contains(blk, []byte("[running")) || bytes.Contains(blk, []byte("[runnable")) {
+			if bytes.Contains(blk, []byte("pion/interceptor")) {
+				out.Write(blk)
+				out.WriteString("\n\n")
+			}
+		}
+	}
+	return out.Bytes()
+}
 
 // Job is what the driver hands to one worker process.
 type Job struct {
@@ -19,6 +38,7 @@ type Job struct {
 	Avoid    []string `json:"avoid,omitempty"`
 	Out      string   `json:"out"`
 	KeepPlan bool     `json:"keep_plan,omitempty"`
+	GenOnly  bool     `json:"gen_only,omitempty"` // emit the generated plans without executing them
 }
 
 // TestWorker executes the job named by $VERIF_JOB.
@@ -48,9 +68,33 @@ func TestWorker(t *testing.T) {
 		w.WriteByte('\n')
 		w.Flush()
 	}
+	// real-time watchdog (outside any bubble): a run that does not finish is a
+	// CPU loop or a wedge in code the simulator cannot preempt.
+	perRun := 20 * time.Second
+	if v, err := strconv.Atoi(os.Getenv("VERIF_PERRUN")); err == nil && v > 0 {
+		perRun = time.Duration(v) * time.Second
+	}
+	var curStart atomic.Int64
+	var curSeed atomic.Int64
+	go func() {
+		for {
+			time.Sleep(100 * time.Millisecond)
+			if st := curStart.Load(); st != 0 && time.Since(time.Unix(0, st)) > perRun {
+				fmt.Fprintf(os.Stderr, "@@HANG %d\n", curSeed.Load())
+				buf := make([]byte, 1<<16)
+				n := runtime.Stack(buf, true)
+				os.Stderr.Write(hangStacks(buf[:n]))
+				w.Flush()
+				os.Exit(3)
+			}
+		}
+	}()
 	run := func(p *Plan) {
 		fmt.Fprintf(os.Stderr, "@@RUN %s %d START\n", p.Prop, p.Seed)
+		curSeed.Store(p.Seed)
+		curStart.Store(time.Now().UnixNano())
 		o := Execute(t, p, job.Trace)
+		curStart.Store(0)
 		if job.KeepPlan && o.Plan == nil {
 			pc := *p
 			o.Plan = &pc
@@ -69,6 +113,10 @@ func TestWorker(t *testing.T) {
 		t.Fatalf("unknown property %q", job.Prop)
 	}
 	for seed := job.SeedFrom; seed < job.SeedTo; seed++ {
+		if job.GenOnly {
+			emit(&Outcome{Prop: job.Prop, Seed: seed, Plan: prop.Gen(seed, job.Tier, job.Avoid)})
+			continue
+		}
 		run(prop.Gen(seed, job.Tier, job.Avoid))
 	}
 }
